@@ -1,13 +1,37 @@
-ASSUMPTIONS = ['no recursive locking; unlock_shared uses the index passed to lock_shared (documented)']
-OUTSIDE = 'tbd'
-CHECKS = ['--div-by-zero-check', '--no-unwinding-assertions']  # cbmc 6 emits unwinding assertions by default; spin loops are cut instead
+TECHNIQUE = ('bounded symbolic execution of LLVM IR lowered to C: CBMC/SAT (cadical), sequentialised step machine '
+             '(engine cbmc-seq: symbolic round-robin scheduler over resumable thread roots, exact futex model, deadlock detection), '
+             'ghost occupancy counters, quiescent slot-word check')
+ASSUMPTIONS = ['no recursive locking; unlock_shared is called with the index that was passed to lock_shared (documented)',
+               'the slot array lives in a typed static array instead of the makeAlignedArray/alignedMalloc block (storage only; every lock/unlock '
+               'member function executed is the real one; alignedMalloc is property C44)',
+               'sequential consistency for the slot words (the only atomics)']
+OUTSIDE = ('N = 16 / 128 (slot loops multiply the state; N in {1,2} quick, 4 thorough); more threads than stated; one acquire/release pair per thread; '
+           'schedules needing more execution segments per thread than the stated number of scheduler rounds; spin loops iterating more than twice '
+           'within one segment (cut, not reported); a locker spinning forever on a leaked writer bit is only caught by the quiescent slot-word check; '
+           'weak-memory reorderings; the DistributedRWLock<N> wrapper\'s threadId() mapping is subsumed by the fully symbolic 64-bit index')
+# cbmc 6 emits unwinding assertions by default; spin loops are cut (assume) instead
+CHECKS = ['--div-by-zero-check', '--no-unwinding-assertions']
+
+
 def I(name, defs, steps, nthreads, bounds, **kw):
     d = {'name': name, 'src': 'drw.cpp', 'engine': 'cbmc-seq', 'steps': steps, 'spin_loops': True, 'defs': defs,
-         'unwind': 3, 'nthreads': nthreads, 'checks': CHECKS, 'timeout': 600, 'must_reach': 'all', 'bounds': bounds, 'seq_unroll': True}
+         'unwind': 3, 'nthreads': nthreads, 'checks': CHECKS, 'timeout': 1700, 'must_reach': 'all', 'seq_unroll': True,
+         'bounds': bounds + '; reader slot index = any 64-bit value, reader kind lock_shared/try_lock_shared symbolic; %d scheduler rounds (each thread <= %d '
+                            'execution segments, preemption at every atomic op / futex call / inside the ghost critical section); spin loops <= 2 '
+                            'iterations per segment; <= 1 spurious futex return per thread' % (steps, steps)}
     d.update(kw)
     return d
+
+
 INSTANCES = [
-    I('n1', {'VF_N': 1, 'VF_READERS': 2, 'VF_LOCKW': 1, 'VF_TRYW': 1, 'VF_MUST': 7}, 4, 4, 'tbd'),
-    I('n2r1', {'VF_N': 2, 'VF_READERS': 1, 'VF_LOCKW': 1, 'VF_TRYW': 1, 'VF_MUST': 7}, 4, 3, 'tbd'),
-    I('n2', {'VF_N': 2, 'VF_READERS': 2, 'VF_LOCKW': 1, 'VF_TRYW': 1, 'VF_MUST': 7}, 4, 4, 'tbd', tiers=['thorough'], timeout=1700),
+    I('n1', {'VF_N': 1, 'VF_READERS': 2, 'VF_LOCKW': 1, 'VF_TRYW': 1, 'VF_MUST': 7}, 4, 4,
+      'N=1; 4 threads: lock() writer, try_lock() writer, 2 readers'),
+    I('n2r1', {'VF_N': 2, 'VF_READERS': 1, 'VF_LOCKW': 1, 'VF_TRYW': 1, 'VF_MUST': 7}, 4, 3,
+      'N=2; 3 threads: lock() writer, try_lock() writer, 1 reader'),
+    I('n2', {'VF_N': 2, 'VF_READERS': 2, 'VF_LOCKW': 1, 'VF_TRYW': 1, 'VF_MUST': 7}, 4, 4,
+      'N=2; 4 threads: lock() writer, try_lock() writer, 2 readers', tiers=['thorough']),
+    I('n2t2', {'VF_N': 2, 'VF_READERS': 1, 'VF_LOCKW': 0, 'VF_TRYW': 2, 'VF_MUST': 7}, 4, 3,
+      'N=2; 3 threads: two try_lock() writers, 1 reader', tiers=['thorough']),
+    I('n4r1', {'VF_N': 4, 'VF_READERS': 1, 'VF_LOCKW': 1, 'VF_TRYW': 1, 'VF_MUST': 7}, 4, 3,
+      'N=4; 3 threads: lock() writer, try_lock() writer, 1 reader', tiers=['thorough'], unwind=3),
 ]
